@@ -11,6 +11,7 @@ from jaqalpaq.core.algorithm.expand_macros import MacroExpander, GateReplacer
 from jaqalpaq.core.algorithm.expand_subcircuits import SubcircuitExpander
 from jaqalpaq.core.algorithm.fill_in_map import MapFiller
 from contracts_subcircuits import wf_stmt, wf_expander
+from contracts_macros import wf_body
 
 
 # ---------------------------------------------------------------- abstract values: "what pass P returns for c"
@@ -132,5 +133,84 @@ class ParseFlags:
         return implies(return_usepulses == True,
                        isinstance(result, tuple) and len(result) == 2
                        and same(result[0], flagged(sp_build(sp_sexpr(jaqal), inject_pulses, autoload_pulses, import_path), override_dict, expand_macro, expand_let, expand_let_map)))
+
+    raises_only = ("JaqalError",)
+
+
+# ---------------------------------------------------------------- fill_in_map: the statement-level emitters
+@assumed("core.algorithm.fill_in_map:MapFiller.visit_GateStatement", props=["C10"])
+class MapGateAssumed:
+    """Assumed (the argument walk is a generator over a visitor dispatch; the qubit case is MapFiller.visit_NamedQubit,
+    proved under C06/C14): emits a gate S-expression."""
+
+    def requires(self, gate):
+        return type_is(self, MapFiller) and isinstance(gate, GateStatement)
+
+    def ensures(self, gate, result):
+        return isinstance(result, list) and len(result) >= 2 and result[0] == "gate"
+
+    raises_only = ("JaqalError",)
+
+
+@contract("core.algorithm.fill_in_map:MapFiller.visit_default", props=["C10", "C11"])
+class MapDefault:
+    def requires(self, obj):
+        return type_is(self, MapFiller)
+
+    def ensures(self, obj, result):
+        return same(result, obj)
+
+    raises_only = ()
+
+
+@contract("core.algorithm.fill_in_map:MapFiller.visit_Register", props=["C10", "C16"])
+class MapRegister:
+    """a whole register passed to a gate stays when it is a declared register; an alias is refused with
+    JaqalError - nothing else escapes"""
+
+    def requires(self, reg):
+        return type_is(self, MapFiller) and type_is(reg, Register)
+
+    def ensures(self, reg, result):
+        return same(result, reg) and reg._alias_from is None
+
+    def raises_JaqalError_when(self, reg):
+        return reg._alias_from is not None
+
+    raises_only = ("JaqalError",)
+
+
+@contract("core.algorithm.fill_in_map:MapFiller.visit_BlockStatement", props=["C10", "C11"])
+class MapBlock:
+    """emits the block kind the input has - a subcircuit block stays a subcircuit block with its count - and one
+    entry per child statement"""
+
+    def requires(self, block):
+        return type_is(self, MapFiller) and type_is(block, BlockStatement) and wf_body(block)
+
+    def ensures_subcircuit(self, block, result):
+        return implies(block._subcircuit, isinstance(result, list) and len(result) == len(block._statements) + 2
+                       and result[0] == "subcircuit_block" and same(result[1], block._iterations))
+
+    def ensures_parallel(self, block, result):
+        return implies(not block._subcircuit and block._parallel, isinstance(result, list) and len(result) == len(block._statements) + 1
+                       and result[0] == "parallel_block")
+
+    def ensures_sequential(self, block, result):
+        return implies(not block._subcircuit and not block._parallel, isinstance(result, list) and len(result) == len(block._statements) + 1
+                       and result[0] == "sequential_block")
+
+    raises_only = ("JaqalError",)
+
+
+@contract("core.algorithm.fill_in_map:MapFiller.visit_LoopStatement", props=["C10", "C11"])
+class MapLoop:
+    """emits ["loop", <the same count>, <block>]"""
+
+    def requires(self, loop):
+        return type_is(self, MapFiller) and type_is(loop, LoopStatement) and wf_body(loop)
+
+    def ensures(self, loop, result):
+        return isinstance(result, list) and len(result) == 3 and result[0] == "loop" and same(result[1], loop._iterations)
 
     raises_only = ("JaqalError",)
